@@ -191,7 +191,7 @@ def gen_lerp_types():
            "inductive IntKind where"]
     for k in kinds:
         out.append(f"  | {k}")
-    out.append("deriving Repr, DecidableEq, BEq, Inhabited\n")
+    out.append("deriving Repr, DecidableEq, Inhabited\n")
     out.append("def IntKind.all : List IntKind := [" + ", ".join("." + k for k in kinds) + "]\n")
     out.append("def IntKind.lo : IntKind → Int")
     for k in kinds:
